@@ -28,6 +28,7 @@ pub struct Norm<'a> {
     pub forpat_no: usize,
     pub tmp_no: usize,
     pub split_no: usize,
+    pub splitk_no: BTreeMap<String, usize>,
     pub spine_no: usize,
     pub call_no: BTreeMap<String, usize>,
     pub let_no: BTreeMap<String, usize>,
@@ -58,7 +59,7 @@ impl<'a> Norm<'a> {
     pub fn new(spec: &'a FnSpec, unit: &'a Unit, canary: bool, fname: &str) -> Self {
         Norm {
             spec, unit, canary, fname: fname.to_string(),
-            loop_no: 0, closure_no: 0, if_no: 0, match_no: 0, assert_no: 0, return_no: 0, forpat_no: 0, tmp_no: 0, split_no: 0, spine_no: 0,
+            loop_no: 0, closure_no: 0, if_no: 0, match_no: 0, assert_no: 0, return_no: 0, forpat_no: 0, tmp_no: 0, split_no: 0, splitk_no: Default::default(), spine_no: 0,
             call_no: Default::default(), let_no: Default::default(), hoisted: vec![], log: Default::default(),
             raws: vec![], used_anchors: Default::default(), avail_anchors: Default::default(), errors: vec![],
             closure_depth: 0, canaries: vec![], omap: crate::align::OrdMap::identity(), sigs: Default::default(), woven: Default::default(), pending_loop_sig: None, str_idents: Default::default(), iter_idents: Default::default(), bind_no: Default::default(), bind_done: Default::default(),
@@ -780,6 +781,11 @@ impl<'a> VisitMut for Norm<'a> {
                 before.extend(self.anchor(&format!("before.{}#{}", nm, k)));
                 after.extend(self.anchor(&format!("after.{}#{}", nm, k)));
             }
+            match &s {
+                Stmt::Expr(Expr::Continue(_), _) => { let k = { let k = self.call_no.entry("continue!".into()).or_default(); *k += 1; *k }; before.extend(self.anchor(&format!("continue#{}", k))); }
+                Stmt::Expr(Expr::Break(_), _) => { let k = { let k = self.call_no.entry("break!".into()).or_default(); *k += 1; *k }; before.extend(self.anchor(&format!("break#{}", k))); }
+                _ => {}
+            }
             if loop_stmt {
                 before.extend(self.anchor(&format!("loop{}.before", next_loop)));
                 after.extend(self.anchor(&format!("loop{}.after", next_loop)));
@@ -987,6 +993,12 @@ impl<'a> VisitMut for Norm<'a> {
                     *f.expr = parse_quote!(#w(#ex));
                 }
                 self.visit_block_mut(&mut f.body);
+                // R-REFPAT on a `for` pattern: `for (i, &x) in ..` -> `for (i, __vx_rN) in .. { let x = *__vx_rN; ..`
+                {
+                    let mut derefs: Vec<Stmt> = vec![];
+                    self.strip_ref_pats(&mut f.pat, &mut derefs);
+                    for (k, d) in derefs.into_iter().enumerate() { f.body.stmts.insert(k, d); }
+                }
                 self.finish_loop(n, &mut f.body);
                 f.attrs.clear();
             }
@@ -1048,6 +1060,27 @@ impl<'a> VisitMut for Norm<'a> {
                 for (j, arm) in m.arms.iter_mut().enumerate() {
                     if let Some((_, g)) = &mut arm.guard { self.visit_expr_mut(g); }
                     self.visit_expr_mut(&mut arm.body);
+                    // R-REFPAT in unguarded match arms whose reference patterns bind plain identifiers:
+                    // `Some(&x) => B` -> `Some(__vx_rN) => { let x = *__vx_rN; B }`
+                    fn ident_refs_only(p: &Pat) -> (bool, bool) {
+                        // (all reference patterns are over plain identifiers, there is at least one)
+                        match p {
+                            Pat::Reference(r) => { let mut c: &Pat = &r.pat; while let Pat::Reference(r2) = c { c = &r2.pat; } (matches!(c, Pat::Ident(pi) if pi.subpat.is_none() && pi.by_ref.is_none()), true) }
+                            Pat::Tuple(t) => t.elems.iter().map(ident_refs_only).fold((true, false), |a, b| (a.0 && b.0, a.1 || b.1)),
+                            Pat::TupleStruct(t) => t.elems.iter().map(ident_refs_only).fold((true, false), |a, b| (a.0 && b.0, a.1 || b.1)),
+                            Pat::Paren(pp) => ident_refs_only(&pp.pat),
+                            _ => (true, false),
+                        }
+                    }
+                    if arm.guard.is_none() && ident_refs_only(&arm.pat) == (true, true) {
+                        let mut derefs: Vec<Stmt> = vec![];
+                        self.strip_ref_pats(&mut arm.pat, &mut derefs);
+                        if !derefs.is_empty() {
+                            let body = (*arm.body).clone();
+                            *arm.body = parse_quote!({ #(#derefs)* #body });
+                            if arm.comma.is_none() { arm.comma = Some(Default::default()); }
+                        }
+                    }
                     let a0 = self.anchor(&format!("match{}.arm{}.start", n, j + 1));
                     let a1 = self.anchor(&format!("match{}.arm{}.end", n, j + 1));
                     if !a0.is_empty() || !a1.is_empty() {
@@ -1175,6 +1208,36 @@ impl<'a> VisitMut for Norm<'a> {
                             let f = Ident::new(f, Span::call_site());
                             mc.receiver = Box::new(parse_quote!(#f(#s, #en)));
                             self.bump("R-ITER");
+                        }
+                    }
+                }
+                // R-LETSPLIT, named form (`@letsplit METHOD#k NAME`): the receiver of the k-th METHOD call, anywhere in an expression,
+                // is bound to `let NAME = recv;` before the enclosing statement; only for receivers that are pure by syntax
+                if self.spec.letsplit_named.iter().any(|(k, _)| k.split('#').next() == Some(name.as_str())) {
+                    let k = { let k = self.splitk_no.entry(name.clone()).or_default(); *k += 1; *k };
+                    let key = format!("{}#{}", name, k);
+                    if let Some((_, nm)) = self.spec.letsplit_named.iter().find(|(kk, _)| kk == &key).cloned() {
+                        fn pure(e: &Expr) -> bool {
+                            match e {
+                                Expr::Path(_) | Expr::Lit(_) => true,
+                                Expr::Field(f) => pure(&f.base),
+                                Expr::Reference(r) => r.mutability.is_none() && pure(&r.expr),
+                                Expr::Paren(p) => pure(&p.expr),
+                                Expr::Unary(u) => matches!(u.op, UnOp::Deref(_)) && pure(&u.expr),
+                                Expr::MethodCall(m) => m.args.is_empty() && ITER_HEADS_M.contains(&m.method.to_string().as_str()) && pure(&m.receiver),
+                                Expr::Call(c) => matches!(&*c.func, Expr::Path(p) if p.path.segments.last().map(|s| ITER_HEADS_F.contains(&s.ident.to_string().as_str())).unwrap_or(false)) && c.args.iter().all(pure),
+                                _ => false,
+                            }
+                        }
+                        if pure(&mc.receiver) {
+                            let id = Ident::new(&nm, Span::call_site());
+                            let recv = &mc.receiver;
+                            self.hoisted.push(parse_quote!(let #id = #recv;));
+                            mc.receiver = Box::new(parse_quote!(#id));
+                            self.used_anchors.insert(format!("letsplit {}", key));
+                            self.bump("R-LETSPLIT");
+                        } else {
+                            self.errors.push(format!("@letsplit {}: receiver is not pure by syntax (in {})", key, self.fname));
                         }
                     }
                 }
@@ -1390,8 +1453,8 @@ impl<'a> Norm<'a> {
         let can = self.canary_stmt(&format!("loop{}", n));
         // keep a `let PAT = __vx_xK;` (R-FORPAT) first
         let mut pos = 0;
-        if let Some(Stmt::Local(l)) = body.stmts.first() {
-            if let Some(init) = &l.init { if ts(&init.expr).starts_with("__vx_x") { pos = 1; } }
+        while let Some(Stmt::Local(l)) = body.stmts.get(pos) {
+            match &l.init { Some(init) if ts(&init.expr).contains("__vx_r") || ts(&init.expr).starts_with("__vx_x") => pos += 1, _ => break }
         }
         for (k, s) in s0.into_iter().enumerate() { body.stmts.insert(pos + k, s); }
         body.stmts.extend(s1);
